@@ -982,6 +982,99 @@ fn k3_scn(b_yields: usize, allow_cancel: bool) -> &'static str {
     how
 }
 
+// ------------------------------------------------------------------------------- two concurrent stream operations
+
+/// One task drives a stream write (to a host reader) and a stream read (from a host writer)
+/// at the same time; either may be cancelled or dropped at a pending poll, which is how a
+/// cancel comes to race with an event that is already queued for the other / same operation.
+fn x_scn<T: Payload>() -> &'static str {
+    let rep: Rc<RefCell<(usize, Option<Vec<Item>>, Vec<Item>, Vec<String>)>> = Rc::new(RefCell::new((0, None, vec![], vec![])));
+    let (ra, rb) = (rep.clone(), rep.clone());
+    let si = with(|h| h.streams.len());
+    with(|h| h.prefer_blocked = true);
+    driver::start_task(async move {
+        let (mut tx, rx) = unsafe { stream_new(T::vt()) };
+        with(|h| h.give_stream_end_to_host(rx.take_handle(), vec![]));
+        drop(rx);
+        let (tx2, mut rx2) = unsafe { stream_new(T::vt()) };
+        let wh = tx2.handle();
+        std::mem::forget(tx2);
+        with(|h| h.give_stream_end_to_host(wh, expect_items::<T>(2)));
+        let writer = async {
+            enum D<R> {
+                Done(R),
+                Cancel,
+            }
+            let mut w = pin!(tx.write(items::<T>(2)));
+            let d = poll_fn(|cx| match w.as_mut().poll(cx) {
+                Poll::Ready(r) => Poll::Ready(D::Done(r)),
+                Poll::Pending => {
+                    if choose("guest:x-write-pending", 2) == 1 {
+                        Poll::Ready(D::Cancel)
+                    } else {
+                        Poll::Pending
+                    }
+                }
+            })
+            .await;
+            let (st, buf) = match d {
+                D::Done(r) => r,
+                D::Cancel => w.as_mut().cancel(),
+            };
+            let mut r = ra.borrow_mut();
+            r.3.push(format!("w:{st:?}"));
+            if let StreamResult::Complete(k) = st {
+                r.0 += k;
+            }
+            r.1 = Some(buf.into_vec().iter().map(|x| x.bytes()).collect());
+        };
+        let reader = async {
+            enum D<R> {
+                Done(R),
+                Cancel,
+            }
+            let mut rd = pin!(rx2.read(Vec::with_capacity(2)));
+            let d = poll_fn(|cx| match rd.as_mut().poll(cx) {
+                Poll::Ready(r) => Poll::Ready(D::Done(r)),
+                Poll::Pending => {
+                    if choose("guest:x-read-pending", 2) == 1 {
+                        Poll::Ready(D::Cancel)
+                    } else {
+                        Poll::Pending
+                    }
+                }
+            })
+            .await;
+            let (st, buf) = match d {
+                D::Done(r) => r,
+                D::Cancel => rd.as_mut().cancel(),
+            };
+            let mut r = rb.borrow_mut();
+            r.3.push(format!("r:{st:?}+{}", buf.len()));
+            for x in buf {
+                r.2.push(x.bytes());
+            }
+        };
+        futures::join!(writer, reader);
+        drop(tx);
+        drop(rx2);
+    });
+    let how = driver::run(&Opts::default(), &mut vec![]);
+    let r = rep.borrow();
+    obs(format!("{:?} sent={} left={:?} got={:?}", r.3, r.0, r.1, r.2));
+    if how == "done" {
+        let want = expect_items::<T>(2);
+        let (taken, given) = with(|h| (h.streams[si].taken.clone(), h.streams[si + 1].given.clone()));
+        check("C19", "x:writer-count", r.0 == taken.len() && taken[..] == want[..taken.len()], || format!("writer reported {} sent, host took {taken:?}", r.0));
+        if let Some(left) = &r.1 {
+            check("C19", "x:writer-leftovers", left[..] == want[taken.len().min(2)..], || format!("leftovers {left:?} vs untransferred {:?}", &want[taken.len().min(2)..]));
+        }
+        check("C19", "x:reader-items", r.2 == given, || format!("reader obtained {:?}, host delivered {given:?}", r.2));
+        blob_ledger_check("C19");
+    }
+    how
+}
+
 // ------------------------------------------------------------------------------- foreign executor / moves (C18)
 
 #[derive(Clone, Copy, PartialEq, Eq, Debug)]
@@ -1178,6 +1271,8 @@ pub fn catalogue() -> Vec<Scenario> {
         scn!("R4-u8-collect-q3", ["C19"], || r_scn::<u8>(3, RMode::Collect)),
         scn!("R4-blob-collect-q2", ["C19"], || r_scn::<Blob>(2, RMode::Collect)),
         scn!("RS-blob-adapter-q2", ["C19"], || r_scn::<Blob>(2, RMode::Adapter)),
+        scn!("X1-blob-write-and-read-concurrently", ["C19", "C18"], x_scn::<Blob>),
+        scn!("X1-u8-write-and-read-concurrently", ["C18"], x_scn::<u8>),
         // guest <-> guest
         scn!("G1-blob-one-task", ["C19", "C18"], || g_scn::<Blob>(3, 2, false)),
         scn!("G1-u8-two-tasks", ["C19", "C18"], || g_scn::<u8>(3, 2, true)),
